@@ -204,6 +204,8 @@ Proof.
   - exists L. destruct (find_ref k (refs s)) as [[tg [| | c|] x]|]; try exact H.
     destruct keep; [|apply release_ok]; apply release_ok, acquire_ok, release_ok, acquire_ok; exact H.
   - apply (fold_drop_ok g _ L). exact H.
+  - exists L. destruct (find_ref k (refs s)) as [r|]; [|exact H]. destruct (is_proc (r_h r)); [|exact H].
+    apply release_ok, acquire_ok. exact H.
 Qed.
 
 Lemma init_ok : cnt_ok (fun _ => 0) init [].
@@ -309,6 +311,8 @@ Proof.
       destruct (drop_ref_now s' r Ho H' Hf' Hp) as [H1 H2]. apply IH; assumption. }
     apply G; auto. apply Forall_forall. intros r Hr. apply filter_In in Hr. destruct Hr as [Hin Hp].
     rewrite Forall_forall in Hf. split; [apply Hf, Hin|]. unfold proc_of in Hp. destruct (r_h r); try discriminate; exact I.
+  - destruct (find_ref k (refs s)) as [r|]; [|split; assumption]. destruct (is_proc (r_h r)); [|split; assumption].
+    split; [apply release_ok, acquire_ok; exact H|apply release_owning, acquire_owning; [exact I|exact Hf]].
 Qed.
 
 Lemma run_now ops : cnt_ok (fun _ => 0) (run now ops) [] /\ Forall owning (refs (run now ops)).
